@@ -1,5 +1,7 @@
 """T15: cirbo/minimization/simplification/{remove_redundant_gates,merge_duplicate_gates,merge_unary_operators,
 merge_equivalent_gates}.py  ->  Generated/PassesGen.v
+     cleanup.py, the class definitions of the transformers, transformer.py (partly)  ->  Generated/PipelineGen.v
+     (second part of this header: `Pipeline`)
 
 A statement-level imperative-to-functional translation of the four simplification passes.  Every definition of
 COVERED becomes `gen_<name>` (methods: `gen_<Class>_<name without leading underscores>`, closures:
@@ -70,6 +72,29 @@ operations above, and is never stored, passed to anything but these operations, 
 <circuit var>` ends the function).  Parameters and values obtained from a read-only circuit are never mutated.  A
 closure may capture only names that are bound exactly once in the enclosing function (so that definition-time and
 call-time values agree), and never rebinds them.
+
+Pipeline (PipeUnit / PipeTr below; Generated/PipelineGen.v imports Model/Passes.v: a transformer OBJECT is a value of
+Passes.transformer, one constructor per class of the closed world WORLD, its arguments are the constructor arguments).
+  class tables  for every class of WORLD: the `super().__init__(pre_transformers=(..), post_transformers=(..))` call of
+                its __init__ (tuples of constructor calls of WORLD classes with bool constants; __init__ may otherwise
+                only store its parameters) -> gen_pre_transformers / gen_post_transformers; the class attribute
+                `__idempotent__` (a bool constant in the class body, else the one of Transformer) -> gen_is_idempotent.
+                Transformer.__init__ / is_idempotent are checked to be the trivial storing / reading definitions.
+  cleanup       translated statement by statement with the grammar above plus: keyword-only bool parameters,
+                `<Class>(..)` of a WORLD class as a value, lists of them, `x += [..]` on a list that was created by a
+                list literal in the function and is read only after its last update, and
+                `Transformer.apply_transformers(c, ts)` = Passes.apply_transformers (NOT regenerated).
+  linearize_reduce_transformers (a generator: `yield e` appends to the list that the function returns)
+                plus: `<name>: tp.Optional[Transformer] = None`, its rebinding with a transformer (Some), `t.is_idempotent`
+                (gen_is_idempotent), `t == p` for an Optional p (Passes.transformer_eqb; the __eq__ methods and Python's
+                reflected comparison protocol are NOT regenerated), iteration over
+                `Transformer.linearize_transformers(ts)` = Passes.linearize (NOT regenerated).
+  not covered   Transformer.linearize_transformers / as_distinct (dynamic dispatch on the class of each element,
+                overridden by TransformerComposition, mutually recursive generators over the object graph),
+                apply_transformers / transform / TransformerComposition._transform (isinstance on a Union parameter,
+                functools.reduce over a lambda that dispatches `_transform`, recursion through the composition),
+                __or__ / __ror__ (return NotImplemented protocol) and the three __eq__.  They stay with the hand model
+                Model/Passes.v and the correspondence check.
 """
 import ast
 import re
@@ -101,7 +126,7 @@ IGNORED = 'ignored'         # the state mapping handed to a traversal hook
 def coq_ty(t):
     if isinstance(t, str):
         return {LABEL: 'label', BOOL: 'bool', GTYPE: 'gtype', GATE: 'gate', CIRCUIT: 'circuit', NAT: 'nat',
-                SIG: '(gtype * list label)', ST: 'st', UNIT: 'unit', GETTER: 'nat'}[t]
+                SIG: '(gtype * list label)', ST: 'st', UNIT: 'unit', GETTER: 'nat', 'transformer': 'transformer'}[t]
     if t[0] == 'list':
         return f'list {pty(t[1])}'
     if t[0] == 'dict':
@@ -336,6 +361,7 @@ class Flow:
 
 
 HEAP = '<heap>'
+YIELD = '<yield>'
 
 
 def atom(code):
@@ -1684,6 +1710,13 @@ class FnTr:
             fn.ret_ty = vals[0].ty
         else:
             fn.ret_ty = UNIT
+        if getattr(self, 'is_gen', False):
+            # a generator returns the list of the values it yields
+            tys = {repr(e[YIELD].ty) for e in ends}
+            if vals or len(tys) != 1 or ends[0][YIELD].ty[1] is None:
+                fail(f, 'generator: the type of the yielded values is not determined')
+            fn.ret_ty = ends[0][YIELD].ty
+            head.append('let yielded_ := [] in')
         parts = [pty(fn.write_tys[n]) for n in fn.writes] + ([pty(fn.ret_ty)] if fn.ret_ty != UNIT else [])
         rty = ' * '.join(parts) if parts else 'unit'
         rty = f'({rty})' if ' ' in rty and not (rty.startswith('(') and balanced(rty)) else rty
@@ -1750,8 +1783,444 @@ def generate():
     return HEADER + '\n' + ''.join(u.order)
 
 
+# ---------------------------------------------------------------------------------------------- pipeline tables
+TRANSFORMER = 'transformer'
+TRANSFORMERS = ('list', TRANSFORMER)
+OUT2 = 'Generated/PipelineGen.v'
+TRANSFORMER_PY = 'cirbo.core.circuit.transformer'
+CLEANUP = PKG + '.cleanup'
+# the closed world of transformer classes: class -> (defining module, constructor of Model/Passes.transformer,
+# [(constructor parameter, type)])
+WORLD = {
+    'RemoveRedundantGates': (RR, 'TRR', [('allow_inputs_removal', BOOL)]),
+    'MergeUnaryOperators': (MU, 'TMU', []),
+    'MergeDuplicateGates': (MD, 'TMD', []),
+    'MergeEquivalentGates': (ME, 'TME', []),
+    'TransformerComposition': (TRANSFORMER_PY, 'TComp', [('transformers', TRANSFORMERS)]),
+}
+PIPELINE = [(CLEANUP, 'cleanup'), (TRANSFORMER_PY, 'Transformer.linearize_reduce_transformers')]
+# static methods of Transformer that stay with the hand model: name -> (model function, parameters, result, monadic)
+STATIC = {
+    'apply_transformers': ('apply_transformers', [('circuit', CIRCUIT), ('transformers', TRANSFORMERS)], CIRCUIT, True),
+    'linearize_transformers': ('linearize', [('transformers', TRANSFORMERS)], TRANSFORMERS, False),
+}
+
+HEADER2 = '''(* GENERATED by translator/t15_passes.py from cirbo/minimization/simplification/cleanup.py, the class definitions of
+   the four passes and cirbo/core/circuit/transformer.py.  DO NOT EDIT.
+   Proofs/PipelineGen.v proves the hand model Model/Passes.v consistent with these definitions.
+
+   What is regenerated: the pre / post transformer lists that the constructors of the transformer classes hand to
+   Transformer.__init__, the class attribute __idempotent__, the function cleanup, and the generator
+   Transformer.linearize_reduce_transformers.  A transformer object is a value of Passes.transformer (a fixed
+   representation: one constructor per class, its arguments are the constructor arguments).
+   NOT regenerated (they stay with the hand model and the correspondence check): Transformer.linearize_transformers
+   (= Passes.linearize), Transformer.apply_transformers (= Passes.apply_transformers), as_distinct, transform,
+   __or__ / __ror__ and the three __eq__ methods (`a == b` on transformers is Passes.transformer_eqb). *)
+Require Import Cirbo.Model.Base Cirbo.Model.Gate Cirbo.Model.Circuit Cirbo.Model.Passes.
+
+(* fixed prelude: `a == b` where b may be None *)
+Definition py_transformer_eq_opt (a : transformer) (b : option transformer) : bool :=
+  match b with Some p => transformer_eqb a p | None => false end.
+'''
+
+
+class PipeUnit(PassUnit):
+    def __init__(self):
+        super().__init__()
+        self.tm = self.modctx(TRANSFORMER_PY)
+        self.world = {}
+        self.check_world()
+
+    def world_class(self, m, name):
+        """does `name` in module m denote a class of the closed world -> its name | None"""
+        if name in WORLD and name in m.bind and self.src.resolve(m.dotted, name) == ('def', WORLD[name][0], name):
+            return name
+        return None
+
+    def is_transformer_base(self, m, name):
+        return name in m.bind and self.src.resolve(m.dotted, name) == ('def', TRANSFORMER_PY, 'Transformer')
+
+    def method(self, cls, name):
+        ms = [n for n in cls.body if isinstance(n, ast.FunctionDef) and n.name == name]
+        if len(ms) > 1:
+            fail(cls, f'{cls.name}.{name} defined twice')
+        return ms[0] if ms else None
+
+    def ctor_term(self, m, node, arg_tr):
+        """<Class>(<keyword arguments>) for a class of the closed world -> Coq term; arg_tr translates an argument"""
+        if not (isinstance(node, ast.Call) and isinstance(node.func, ast.Name)):
+            return None
+        cname = self.world_class(m, node.func.id)
+        if cname is None:
+            return None
+        _mod, con, params = WORLD[cname]
+        info = self.world[cname]
+        given = {}
+        if len(node.args) > len(info['positional']):
+            fail(node, 'too many positional arguments')
+        for p, a in zip(info['positional'], node.args):
+            given[p] = a
+        for k in node.keywords:
+            if k.arg is None or k.arg in given or k.arg not in [p for p, _ in params]:
+                fail(node, 'constructor keyword outside grammar')
+            given[k.arg] = k.value
+        codes = []
+        for p, ty in params:
+            if p in given:
+                codes.append(arg_tr(given[p], ty))
+            elif p in info['defaults']:
+                codes.append(info['defaults'][p])
+            else:
+                fail(node, f'missing constructor argument {p}')
+        return con if not codes else '(' + ' '.join([con] + codes) + ')'
+
+    def const_arg(self, node, ty):
+        if ty == BOOL and isinstance(node, ast.Constant) and isinstance(node.value, bool):
+            return 'true' if node.value else 'false'
+        fail(node, 'constructor argument in a class definition must be a bool constant')
+
+    def check_world(self):
+        tm = self.tm
+        base = tm.classes.get('Transformer')
+        if base is None or tm.bind.get('Transformer') != ('def', base) or base.bases or base.decorator_list \
+                or [ast.unparse(k.value) for k in base.keywords] != ['abc.ABCMeta']:
+            raise TranslatorError('transformer.py: class Transformer(metaclass=abc.ABCMeta) not found')
+        init = self.method(base, '__init__')
+        want = ('def __init__(self, pre_transformers=tuple(), post_transformers=tuple()):\n'
+                '    self._pre_transformers = pre_transformers\n    self._post_transformers = post_transformers')
+        if init is None or self.strip_annotations(init) != want:
+            raise TranslatorError('Transformer.__init__ must store its two parameters (defaults tuple())')
+        prop = self.method(base, 'is_idempotent')
+        if prop is None or [ast.unparse(d) for d in prop.decorator_list] != ['property'] \
+                or [ast.unparse(x) for x in strip_docstring(prop.body)] != ['return self.__idempotent__']:
+            raise TranslatorError('Transformer.is_idempotent must be the property `return self.__idempotent__`')
+        for name, (_model, params, _ret, _mon) in STATIC.items():
+            sm = self.method(base, name)
+            if sm is None or [ast.unparse(d) for d in sm.decorator_list] != ['staticmethod'] \
+                    or [a.arg for a in sm.args.args] != [p for p, _ in params] or sm.args.kwonlyargs or sm.args.vararg \
+                    or sm.args.kwarg or sm.args.defaults:
+                raise TranslatorError(f'Transformer.{name}: must be a staticmethod of {[p for p, _ in params]}')
+        for b in base.body:
+            if isinstance(b, ast.FunctionDef) and b.name in ('__new__', '__init_subclass__', '__getattr__',
+                                                             '__getattribute__', '__setattr__'):
+                raise TranslatorError(f'Transformer.{b.name}: customised object protocol')
+        base_idem = self.idempotent_attr(base)
+        if base_idem is None:
+            raise TranslatorError('Transformer.__idempotent__ must be a bool constant')
+        # first the constructor signatures (constructor calls inside __init__ bodies need them) ...
+        for cname, (dotted, _con, params) in WORLD.items():
+            m = self.modctx(dotted)
+            cls = m.classes.get(cname)
+            if cls is None or m.bind.get(cname) != ('def', cls) or cls.decorator_list or cls.keywords \
+                    or len(cls.bases) != 1 or not isinstance(cls.bases[0], ast.Name) \
+                    or not self.is_transformer_base(m, cls.bases[0].id):
+                raise TranslatorError(f'{dotted}: class {cname}(Transformer) not found')
+            for b in cls.body:
+                if isinstance(b, ast.FunctionDef) and b.name in ('__new__', '__init_subclass__', '__getattr__',
+                                                                 '__getattribute__', '__setattr__', 'is_idempotent'):
+                    raise TranslatorError(f'{cname}.{b.name}: customised object protocol')
+            init = self.method(cls, '__init__')
+            if init is None or init.decorator_list:
+                raise TranslatorError(f'{cname}.__init__ not found')
+            a = init.args
+            if a.posonlyargs or a.vararg or a.kwarg or a.defaults or not a.args or a.args[0].arg != 'self':
+                raise TranslatorError(f'{cname}.__init__: signature outside grammar')
+            got = [x.arg for x in a.args[1:]] + [x.arg for x in a.kwonlyargs]
+            if got != [p for p, _ in params]:
+                raise TranslatorError(f'{cname}.__init__: parameters {got} differ from {[p for p, _ in params]}')
+            defaults = {}
+            for x, dv in zip(a.kwonlyargs, a.kw_defaults):
+                ty = dict(params)[x.arg]
+                if dv is not None:
+                    defaults[x.arg] = self.const_arg(dv, ty)
+                if ty == BOOL and (x.annotation is None or ast.unparse(x.annotation) != 'bool'):
+                    raise TranslatorError(f'{cname}.__init__: {x.arg} must be annotated bool')
+            idem = self.idempotent_attr(cls)
+            self.world[cname] = {'cls': cls, 'm': m, 'init': init, 'positional': [x.arg for x in a.args[1:]],
+                                 'defaults': defaults, 'idempotent': base_idem if idem is None else idem}
+        # ... then the bodies: super().__init__(pre_transformers=..., post_transformers=...) and attribute stores
+        for cname, info in self.world.items():
+            m, init = info['m'], info['init']
+            params = [x.arg for x in init.args.args[1:]] + [x.arg for x in init.args.kwonlyargs]
+            pre, post, supers = [], [], 0
+            for st in strip_docstring(init.body):
+                if isinstance(st, ast.Expr) and isinstance(st.value, ast.Call) \
+                        and ast.unparse(st.value.func) == 'super().__init__' and not st.value.args:
+                    supers += 1
+                    for k in st.value.keywords:
+                        if k.arg not in ('pre_transformers', 'post_transformers') or not isinstance(k.value, ast.Tuple):
+                            fail(st, f'{cname}.__init__: super().__init__ arguments outside grammar')
+                        terms = []
+                        for e in k.value.elts:
+                            t = self.ctor_term(m, e, self.const_arg)
+                            if t is None:
+                                fail(e, f'{cname}.__init__: a dependency must be a constructor call of a known class')
+                            terms.append(t)
+                        (pre if k.arg == 'pre_transformers' else post).extend(terms)
+                elif isinstance(st, ast.Assign) and len(st.targets) == 1 and isinstance(st.targets[0], ast.Attribute) \
+                        and isinstance(st.targets[0].value, ast.Name) and st.targets[0].value.id == 'self' \
+                        and st.targets[0].attr not in ('_pre_transformers', '_post_transformers', '__idempotent__') \
+                        and (ast.unparse(st.value) in params or ast.unparse(st.value) in [f'list({p})' for p in params]):
+                    continue
+                else:
+                    fail(st, f'{cname}.__init__: statement outside grammar')
+            if supers != 1:
+                fail(init, f'{cname}.__init__ must call super().__init__ exactly once')
+            for n in ast.walk(info['cls']):
+                if isinstance(n, ast.Attribute) and n.attr in ('_pre_transformers', '_post_transformers', '__idempotent__') \
+                        and isinstance(n.ctx, (ast.Store, ast.Del)):
+                    fail(n, f'{cname}: writes {n.attr}')
+            info['pre'], info['post'] = pre, post
+
+    @staticmethod
+    def strip_annotations(f):
+        import copy
+        g = copy.deepcopy(f)
+        g.body = strip_docstring(g.body)
+        g.returns = None
+        for a in g.args.args + g.args.kwonlyargs:
+            a.annotation = None
+        return ast.unparse(g)
+
+    @staticmethod
+    def idempotent_attr(cls):
+        vals = []
+        for st in cls.body:
+            tgt = st.target if isinstance(st, ast.AnnAssign) else (st.targets[0] if isinstance(st, ast.Assign)
+                                                                    and len(st.targets) == 1 else None)
+            if isinstance(tgt, ast.Name) and tgt.id == '__idempotent__':
+                if not (isinstance(st.value, ast.Constant) and isinstance(st.value.value, bool)):
+                    fail(st, '__idempotent__ must be a bool constant')
+                vals.append(st.value.value)
+        if len(vals) > 1:
+            fail(cls, '__idempotent__ assigned twice')
+        return vals[0] if vals else None
+
+    def tables(self):
+        def table(name, ty, f):
+            rows = []
+            for cname, (_d, con, params) in WORLD.items():
+                pat = con if not params else con + ' _' * len(params)
+                rows.append(f'  | {pat} => {f(self.world[cname])}')
+            return f'Definition {name} (t : transformer) : {ty} :=\n  match t with\n' + '\n'.join(rows) + '\n  end.\n\n'
+        out = '(* what the constructor of each class hands to Transformer.__init__ *)\n'
+        out += table('gen_pre_transformers', 'list transformer', lambda i: '[' + '; '.join(i['pre']) + ']')
+        out += table('gen_post_transformers', 'list transformer', lambda i: '[' + '; '.join(i['post']) + ']')
+        out += '(* the class attribute __idempotent__ (Transformer.is_idempotent returns it) *)\n'
+        out += table('gen_is_idempotent', 'bool', lambda i: 'true' if i['idempotent'] else 'false')
+        return out
+
+    def get(self, dotted, qual, node=None):
+        key = (dotted, qual)
+        if key in self.done:
+            return self.done[key]
+        if key not in PIPELINE:
+            raise TranslatorError(f'{dotted}.{qual}: not in the list of T15')
+        m = self.modctx(dotted)
+        if '.' in qual:
+            cname, fname = qual.split('.')
+            cls = m.classes.get(cname)
+            if cls is None or m.bind.get(cname) != ('def', cls):
+                raise TranslatorError(f'{dotted}: class {cname} not found')
+            src = self.method(cls, fname)
+            if src is None or [ast.unparse(d) for d in src.decorator_list] != ['staticmethod']:
+                raise TranslatorError(f'{dotted}.{qual}: not a staticmethod defined once')
+            tr = PipeTr(self, m, src, f'gen_{fname.lstrip("_")}', 'static', cls=cls)
+        else:
+            src = m.funcs.get(qual)
+            if src is None or m.bind.get(qual) != ('def', src):
+                raise TranslatorError(f'{dotted}.{qual}: not found')
+            tr = PipeTr(self, m, src, f'gen_{qual.lstrip("_")}', 'function')
+        fn = tr.translate()
+        self.done[key] = fn
+        return fn
+
+
+class PipeTr(FnTr):
+    FORBIDDEN = tuple(x for x in FnTr.FORBIDDEN if x not in (ast.Yield, ast.AugAssign))
+
+    def ann_type(self, ann, node):
+        if ann is not None:
+            s = ast.unparse(ann).replace("'", '').replace('"', '').replace(' ', '')
+            if s == 'bool':
+                return BOOL
+            if s == 'tp.Iterable[Transformer]' and self.m.is_module('tp', 'typing') \
+                    and (self.m.dotted == TRANSFORMER_PY or self.u.is_transformer_base(self.m, 'Transformer')):
+                return TRANSFORMERS
+        return super().ann_type(ann, node)
+
+    def signature(self, env):
+        f, fn = self.src, self.fn
+        a = f.args
+        if a.posonlyargs or a.vararg or a.kwarg or a.defaults:
+            fail(f, 'signature outside grammar')
+        for p, dv in zip(a.kwonlyargs, a.kw_defaults):
+            if dv is not None and not isinstance(dv, ast.Constant):
+                fail(p, 'default outside grammar')
+        for p in list(a.args) + list(a.kwonlyargs):
+            if p.arg in env:
+                fail(p, 'parameter bound twice')
+            ty = self.ann_type(p.annotation, p)
+            code = self.vname(p, p.arg)
+            env[p.arg] = Var(code, ty, 'val')
+            fn.params.append((p.arg, ty))
+        self.is_gen = any(isinstance(n, ast.Yield) for n in ast.walk(f))
+        if self.is_gen:
+            env[YIELD] = Var('yielded_', ('list', None), 'state')
+
+    def modset(self, stmts, env):
+        out = set(super().modset(stmts, env))
+        for s in stmts:
+            for n in ast.walk(s):
+                if isinstance(n, ast.AugAssign) and isinstance(n.target, ast.Name):
+                    out.add(n.target.id)
+                elif isinstance(n, ast.Yield):
+                    out.add(YIELD)
+        return [n for n in env if n in out and env[n].kind != 'fn']
+
+    def final(self, env, val=None):
+        if getattr(self, 'is_gen', False):
+            if val is not None:
+                fail(self.src, 'a generator returns a value')
+            return f'Ok {env[YIELD].code}'
+        return super().final(env, val)
+
+    def static_call(self, node, env, pre):
+        """Transformer.<static method>(args) -> Val | None"""
+        f = node.func
+        if not (isinstance(f, ast.Attribute) and isinstance(f.value, ast.Name) and f.value.id == 'Transformer'
+                and 'Transformer' not in env and f.attr in STATIC):
+            return None
+        if not (self.u.is_transformer_base(self.m, 'Transformer')
+                or (self.m.dotted == TRANSFORMER_PY and self.m.bind.get('Transformer', ('',))[0] == 'def')):
+            fail(node, 'Transformer is not the class of transformer.py')
+        model, params, ret, monadic = STATIC[f.attr]
+        if node.keywords or len(node.args) != len(params):
+            fail(node, 'arguments of a static method of Transformer')
+        codes = [atom(self.typed(a, env, pre, ty).code) for a, (_p, ty) in zip(node.args, params)]
+        code = ' '.join([model] + codes)
+        if monadic:
+            t = self.fresh()
+            pre.append((t, code))
+            return Val(t, ret)
+        return Val(f'({code})', ret)
+
+    def expr(self, node, env, pre):
+        if isinstance(node, ast.Call):
+            t = self.u.ctor_term(self.m, node, lambda a, ty: atom(self.typed(a, env, pre, ty).code)) \
+                if isinstance(node.func, ast.Name) and node.func.id not in env else None
+            if t is not None:
+                return Val(t, TRANSFORMER)
+            v = self.static_call(node, env, pre)
+            if v is not None:
+                return v
+        if isinstance(node, ast.List) and node.elts:
+            vals = [self.expr(e, env, pre) for e in node.elts]
+            if all(v.ty == TRANSFORMER for v in vals):
+                return Val('[' + '; '.join(v.code for v in vals) + ']', TRANSFORMERS)
+        if isinstance(node, ast.Attribute) and node.attr == 'is_idempotent':
+            v = self.expr(node.value, env, pre)
+            if v.ty == TRANSFORMER:
+                return Val(f'(gen_is_idempotent {atom(v.code)})', BOOL)
+            fail(node, 'is_idempotent of something that is not a transformer')
+        if isinstance(node, ast.Compare) and len(node.ops) == 1 and isinstance(node.ops[0], ast.Eq):
+            sub = []
+            l = self.expr(node.left, env, sub)
+            r = self.expr(node.comparators[0], env, sub)
+            if l.ty == TRANSFORMER and r.ty == ('opt', TRANSFORMER) and not sub:
+                # Transformer.__eq__ and its overrides are not regenerated: Passes.transformer_eqb
+                return Val(f'(py_transformer_eq_opt {atom(l.code)} {atom(r.code)})', BOOL)
+        if isinstance(node, ast.BoolOp):
+            # `a and b`: both operands are pure here, Python's short circuit is not observable
+            pass
+        return super().expr(node, env, pre)
+
+    def iterable(self, node, env, pre):
+        if isinstance(node, ast.Call):
+            v = self.static_call(node, env, pre)
+            if v is not None:
+                if v.ty != TRANSFORMERS:
+                    fail(node, 'iteration over something that is not a list')
+                return ('list', v.code, TRANSFORMER)
+        return super().iterable(node, env, pre)
+
+    def stmts(self, body, env, fl):
+        if body:
+            s, rest = body[0], body[1:]
+            flr = Flow(lambda e: self.stmts(rest, e, fl), fl.can_return, fl.cont) if rest else fl
+            if isinstance(s, ast.Expr) and isinstance(s.value, ast.Yield):
+                if s.value.value is None:
+                    fail(s, 'bare yield')
+                pre = []
+                v = self.expr(s.value.value, env, pre)
+                y = env[YIELD]
+                ety = y.ty[1] or v.ty
+                if v.ty != ety or ety != TRANSFORMER:
+                    fail(s, f'yield of {v.ty}')
+                env2 = dict(env)
+                env2[YIELD] = Var(y.code, ('list', ety), 'state')
+                return '\n'.join(self.emit_pre(pre) + [f'let {y.code} := {y.code} ++ [{v.code}] in', flr.k(env2)])
+            if isinstance(s, ast.AugAssign):
+                return self.aug_assign(s, env, flr)
+            if isinstance(s, ast.AnnAssign) and isinstance(s.target, ast.Name) and s.value is not None \
+                    and isinstance(s.value, ast.Constant) and s.value.value is None:
+                ann = ast.unparse(s.annotation).replace("'", '').replace(' ', '')
+                if ann != 'tp.Optional[Transformer]' or not self.m.is_module('tp', 'typing'):
+                    fail(s, 'Optional annotation outside grammar')
+                name = s.target.id
+                if name in env:
+                    fail(s, f'rebinding of {name}')
+                code = self.vname(s.target, name)
+                env2 = dict(env)
+                env2[name] = Var(code, ('opt', TRANSFORMER), 'val')
+                return '\n'.join([f'let {code} := None in', flr.k(env2)])
+            if isinstance(s, ast.Assign) and len(s.targets) == 1 and isinstance(s.targets[0], ast.Name) \
+                    and s.targets[0].id in env and env[s.targets[0].id].ty == ('opt', TRANSFORMER) \
+                    and env[s.targets[0].id].kind == 'val':
+                # rebinding of an Optional local with a value that is not None
+                pre = []
+                v = self.typed(s.value, env, pre, TRANSFORMER)
+                code = env[s.targets[0].id].code
+                return '\n'.join(self.emit_pre(pre) + [f'let {code} := Some {atom(v.code)} in', flr.k(env)])
+        return super().stmts(body, env, fl)
+
+    def aug_assign(self, s, env, flr):
+        """x += [..] on a local list: in place in Python; sound as a rebinding because x was created by a list literal
+        in this function and is read only after its last `+=` (no alias can observe the update)"""
+        if not (isinstance(s.op, ast.Add) and isinstance(s.target, ast.Name) and s.target.id in env):
+            fail(s, 'augmented assignment outside grammar')
+        name = s.target.id
+        var = env[name]
+        if var.kind != 'val' or not (isinstance(var.ty, tuple) and var.ty[0] == 'list'):
+            fail(s, '+= on something that is not a local list')
+        inits = [n for n in ast.walk(self.root.src) if isinstance(n, (ast.Assign, ast.AnnAssign))
+                 and any(isinstance(t, ast.Name) and t.id == name
+                         for t in (n.targets if isinstance(n, ast.Assign) else [n.target]))]
+        augs = [n for n in ast.walk(self.root.src) if isinstance(n, ast.AugAssign) and isinstance(n.target, ast.Name)
+                and n.target.id == name]
+        last = max((n.end_lineno, n.end_col_offset) for n in augs)
+        loads = [n for n in ast.walk(self.root.src) if isinstance(n, ast.Name) and n.id == name and isinstance(n.ctx, ast.Load)]
+        if len(inits) != 1 or not isinstance(inits[0].value, ast.List) or self.store_count(name) != 1 + len(augs) \
+                or any((n.lineno, n.col_offset) < last for n in loads) or self.outer is not None \
+                or any(isinstance(n, (ast.For, ast.While)) and any(a in ast.walk(n) for a in augs)
+                       for n in ast.walk(self.root.src)):
+            fail(s, f'{name} += ...: the list must come from a list literal, not be updated in a loop and be read only '
+                    'after its last update')
+        pre = []
+        v = self.typed(s.value, env, pre, var.ty)
+        return '\n'.join(self.emit_pre(pre) + [f'let {var.code} := {var.code} ++ {atom(v.code)} in', flr.k(env)])
+
+
+def generate_pipeline():
+    u = PipeUnit()
+    parts = [HEADER2, '\n', u.tables()]
+    for dotted, qual in PIPELINE:
+        parts.append(u.get(dotted, qual).text)
+    return ''.join(parts)
+
+
 def translate():
-    return {OUT: write_if_changed(OUT, generate())}
+    return {OUT: write_if_changed(OUT, generate()), OUT2: write_if_changed(OUT2, generate_pipeline())}
 
 
 if __name__ == '__main__':
